@@ -250,7 +250,7 @@ theorem vcall_usr_correct (hE : ExprOK ms WF) (henv : env.cfg = Cfg.fixed)
     obtain ⟨va, va', hva, hcv, rfl⟩ := evalCHArgs_single_inv hev
     obtain ⟨rfl, hvaC⟩ := evalCH_pure ms subs hfrag hnop hva
     -- the expression theorem and the conversion to `uint32_t`
-    have hsim := expr_sim hE henv (hinv.rel.agreeOn _ _) hinv.inv hWF hvaC hce
+    have hsim := expr_sim hE henv (hinv.rel.agreeOn _ _ _) hinv.inv hinv.immVal hWF hvaC hce
     obtain ⟨x, hcx, _, he, _⟩ := sim_convTo utT hsim (by decide)
     rw [hcx] at hcv; cases hcv
     simp only [voidCallC] at hex
